@@ -540,6 +540,8 @@ def gen_descs(tier, rng, focus=None):
             spec["nmax"] = 5
         restart = int(rng.integers(1, 5)) if (rng.random() < 0.25 or focus == "restart") else 0
         d = dict(spec=spec, cfg=cfg, opts=opts, restart=restart, red=int(rng.integers(0, 3)))
+        if restart and rng.random() < 0.4:
+            d["ck_counters"] = [int(rng.integers(0, 9)), int(rng.integers(0, 9))]   # any counters are a legitimate checkpoint
         if restart and rng.random() < 0.08:
             d["x0_off"] = [float(rng.choice([0.5, -0.25, 1e-9]))]   # x0 differs from checkpoint.x: the package raises ValueError
         yield d
@@ -555,7 +557,11 @@ def build_case(desc, name):
         # a checkpoint produced by a plain first leg
         first = dict(x0=P.x0.copy(), fun=P.f, jac=P.g, bounds=P.bounds, maxcor=desc["cfg"]["maxcor"], ftol=0.0, gtol=1e-12,
                      maxiter=desc["restart"], maxfun=1000, maxls=desc["cfg"]["maxls"])
+        if not callable(kw.get("jac")):
+            first["jac"] = kw.get("jac")          # finite-difference checkpoint: nfev and njev differ
         ck = minimize_lbfgsb(**first)
+        if desc.get("ck_counters"):
+            ck.nfev, ck.njev = int(ck.nfev + desc["ck_counters"][0]), int(ck.njev + desc["ck_counters"][1])
         kw["x0"] = ck.x.copy()
         kw["checkpoint"] = copy.deepcopy(ck)
         if desc.get("red"):
